@@ -40,20 +40,34 @@ func variadicStrings(v ssa.Value) ([]string, bool) {
 	if !ok {
 		return nil, false
 	}
-	var out []string
+	type slot struct {
+		i int64
+		s string
+	}
+	var slots []slot
 	all := true
 	for _, ref := range *al.Referrers() {
 		if ia, ok := ref.(*ssa.IndexAddr); ok {
+			k, isK := eng.ConstInt(ia.Index)
+			if !isK {
+				all = false
+			}
 			for _, r2 := range *ia.Referrers() {
 				if st, ok := r2.(*ssa.Store); ok {
 					if s, isC := eng.ConstString(st.Val); isC {
-						out = append(out, s)
+						slots = append(slots, slot{k, s})
 					} else {
 						all = false
 					}
 				}
 			}
 		}
+	}
+	// in argument order
+	sort.SliceStable(slots, func(i, j int) bool { return slots[i].i < slots[j].i })
+	var out []string
+	for _, sl := range slots {
+		out = append(out, sl.s)
 	}
 	return out, all
 }
@@ -182,6 +196,45 @@ func (c *Ctx) c18Order() {
 				if g := eng.StaticCallee(fc.Common()); g != nil && (g == tagFilter || reachesSync(g, tagFilter)) {
 					if prm, isP := fc.Call.Args[0].(*ssa.Parameter); isP && prm.Parent() == fn {
 						okArg = true
+					}
+				}
+			}
+		}
+		// the wrapper inlined: buf := &bytes.Buffer{}; styleTagFilter(buf, strings.NewReader(input))
+		// succeeded; policy.Sanitize(buf.String()) — buf written by nothing else
+		if sc, ok := arg.(*ssa.Call); ok && !okArg && eng.CalleeName(sc.Common()) == "(*bytes.Buffer).String" {
+			if buf, isAl := sc.Call.Args[0].(*ssa.Alloc); isAl && buf.Referrers() != nil {
+				var filterCall *ssa.Call
+				clean := true
+				for _, ref := range *buf.Referrers() {
+					switch x := ref.(type) {
+					case *ssa.Call:
+						if x != sc {
+							clean = false
+						}
+					case *ssa.MakeInterface:
+						for _, r2 := range *x.Referrers() {
+							fc, isCall := r2.(*ssa.Call)
+							if !isCall || eng.StaticCallee(fc.Common()) != tagFilter || filterCall != nil || len(fc.Call.Args) != 2 || fc.Call.Args[0] != ssa.Value(x) {
+								clean = false
+								continue
+							}
+							filterCall = fc
+						}
+					case *ssa.DebugRef:
+					default:
+						clean = false
+					}
+				}
+				if clean && filterCall != nil {
+					src := eng.Unwrap(filterCall.Call.Args[1])
+					if rc, isCall := src.(*ssa.Call); isCall && eng.CalleeName(rc.Common()) == "strings.NewReader" {
+						if prm, isP := rc.Call.Args[0].(*ssa.Parameter); isP && prm.Parent() == fn {
+							ev := errResultOf(filterCall)
+							if eng.Dominates(filterCall, call) && (ev == nil || eng.KnownNil(ev, call.Block()) || eng.SucceededBefore(filterCall, ev, call)) {
+								okArg = true
+							}
+						}
 					}
 				}
 			}
@@ -393,6 +446,12 @@ func (c *Ctx) c18Attr() {
 			return []alt{{v, nil}}
 		}
 		switch x := v.(type) {
+		case *ssa.Parameter:
+			// the escape sits in a helper (appendAttr(b, key, value)): what its only call
+			// site passes
+			if w := p.Actual(x); w != ssa.Value(x) {
+				return alternatives(w, depth+1)
+			}
 		case *ssa.Phi:
 			var out []alt
 			for i, e := range x.Edges {
@@ -588,6 +647,21 @@ func (c *Ctx) c18CSS() {
 	}
 	r.Floor("C18/CSS", "state handler functions", len(states), 1)
 	writers := append([]*ssa.Function{cssFilter}, states...)
+	// and every package function the filter runs, whatever its parameters
+	{
+		have := map[*ssa.Function]bool{}
+		for _, w := range writers {
+			have[w] = true
+		}
+		var more []*ssa.Function
+		for g := range p.SyncReach(cssFilter) {
+			if !have[g] && g.Parent() == nil && eng.FuncPkgPath(g) == eng.Mod+"/"+sanRel {
+				more = append(more, g)
+			}
+		}
+		sortFuncs(more)
+		writers = append(writers, more...)
+	}
 	isTokenValue := func(v ssa.Value) bool {
 		f := eng.LoadedField(v)
 		return f != nil && f.Name() == "Value" && f.Pkg() != nil && strings.HasSuffix(f.Pkg().Path(), "css/scanner")
@@ -721,6 +795,65 @@ func (c *Ctx) c18CSS() {
 		}
 		return enumState{}, false
 	}
+	// a boolean-coded copying state (keep := beginDeclaration(b, t); … if keep { write }): the
+	// write is dominated by the true edge of a flag that is true only where the property passed
+	// the allow-list
+	var allowedFlag func(v ssa.Value, at *ssa.BasicBlock, depth int) bool
+	allowedFlag = func(v ssa.Value, at *ssa.BasicBlock, depth int) bool {
+		if depth > 4 {
+			return false
+		}
+		switch x := v.(type) {
+		case *ssa.Const:
+			if b, isB := eng.ConstBool(x); isB {
+				return !b || okEdge(at.Parent(), at)
+			}
+			return false
+		case *ssa.Phi:
+			for i, e := range x.Edges {
+				if !allowedFlag(e, x.Block().Preds[i], depth+1) {
+					return false
+				}
+			}
+			return true
+		case *ssa.Call:
+			g := eng.StaticCallee(x.Common())
+			if g == nil || len(g.Blocks) == 0 || g.Parent() != nil || eng.FuncPkgPath(g) != eng.Mod+"/"+sanRel || g.Signature.Results().Len() != 1 {
+				return false
+			}
+			okAll, n := true, 0
+			eng.EachInstr(g, func(in ssa.Instruction) {
+				ret, isRet := in.(*ssa.Return)
+				if !isRet || in.Parent() != g || eng.IsRecoverBlock(ret.Block()) {
+					return
+				}
+				n++
+				if !allowedFlag(eng.ReturnResults(ret)[0], ret.Block(), depth+1) {
+					okAll = false
+				}
+			})
+			return okAll && n > 0
+		}
+		return false
+	}
+	boolGuard := func(fn *ssa.Function, at *ssa.BasicBlock) bool {
+		for _, b := range fn.Blocks {
+			for k := 0; k < len(b.Succs) && len(b.Succs) == 2; k++ {
+				v, pol, ok := eng.CondTruth(b, k)
+				if !ok || !pol || !eng.EdgeDominates(b, k, at) {
+					continue
+				}
+				if _, isC := v.(*ssa.Const); isC {
+					continue
+				}
+				if isB := isBool(v.Type()); isB && allowedFlag(v, b, 0) {
+					return true
+				}
+			}
+		}
+		return false
+	}
+	nBoolStates := 0
 	unguarded := map[*ssa.Function]bool{}
 	enumStates := map[enumState]string{}
 	var probs []string
@@ -745,6 +878,10 @@ func (c *Ctx) c18CSS() {
 			}
 			if es, ok := stateGuard(fn, call.Block()); ok {
 				enumStates[es] = p.InstrPos(call)
+				return
+			}
+			if boolGuard(fn, call.Block()) {
+				nBoolStates++
 				return
 			}
 			unguarded[fn] = true
@@ -865,7 +1002,7 @@ func (c *Ctx) c18CSS() {
 	if len(probs) > 0 {
 		r.Bad("C18/CSS", "css-state-machine", p.Pos(cssFilter.Pos()), "%s", strings.Join(probs, "; "))
 	} else {
-		r.Ok("C18/CSS", "css-state-machine", p.Pos(cssFilter.Pos()), "token text is written only under allowedProperties[lower(name)] ok or in a copying state (%d function-valued, %d enum-coded) that is entered only from that edge; other output is constant text and token type names; error → \"\"", len(unguarded), len(enumStates))
+		r.Ok("C18/CSS", "css-state-machine", p.Pos(cssFilter.Pos()), "token text is written only under allowedProperties[lower(name)] ok or in a copying state (%d function-valued, %d enum-coded, %d flag-coded) that is entered only from that edge; other output is constant text and token type names; error → \"\"", len(unguarded), len(enumStates), nBoolStates)
 	}
 }
 
@@ -949,7 +1086,10 @@ func (c *Ctx) c18Text() {
 	}
 	// nothing may undo the escaping: walk every value derived from the escaped text (in
 	// TextToHTML and in the callback that wraps URLs) and check each consumer
-	markup := func(s string) bool { return strings.ContainsAny(s, "<>\"'") }
+	// a constant replacement may insert markup only as complete tags with balanced quotes
+	// ("<br/>\n"); a lone `<` or quote lets the (escaped) text around it become a tag or leave
+	// an attribute value
+	markup := func(s string) bool { return !balancedMarkup(s) }
 	var checkDerived func(start ssa.Value, where *ssa.Function)
 	visitedHelper := map[*ssa.Function]bool{}
 	checkDerived = func(start ssa.Value, where *ssa.Function) {
@@ -1150,8 +1290,14 @@ func (c *Ctx) c18Text() {
 		}
 		eng.EachInstr(g, func(in ssa.Instruction) {
 			if call, ok := in.(*ssa.Call); ok && eng.CalleeName(call.Common()) == "strings.NewReplacer" {
-				if _, all := variadicStrings(call.Call.Args[0]); !all && !c.constStringSlice(call.Call.Args[0], 0) {
+				strs, all := variadicStrings(call.Call.Args[0])
+				if !all && !c.constStringSlice(call.Call.Args[0], 0) {
 					probs = append(probs, "strings.NewReplacer is given non-constant replacement strings")
+				}
+				for i := 1; all && i < len(strs); i += 2 {
+					if !balancedMarkup(strs[i]) {
+						probs = append(probs, "strings.NewReplacer at "+p.InstrPos(call)+" has a replacement that re-introduces an unbalanced markup character")
+					}
 				}
 			}
 		})
@@ -1402,4 +1548,35 @@ func (c *Ctx) constStringSliceB(v ssa.Value, depth int, busy map[ssa.Value]bool)
 		}
 	}
 	return false
+}
+
+func isBool(t types.Type) bool {
+	b, ok := t.Underlying().(*types.Basic)
+	return ok && b.Info()&types.IsBoolean != 0
+}
+
+// balancedMarkup: every `<` in s is closed by a `>` within s, no `>` stands alone, and single
+// and double quotes come in pairs.
+func balancedMarkup(s string) bool {
+	open := false
+	dq, sq := 0, 0
+	for _, ch := range s {
+		switch ch {
+		case '<':
+			if open {
+				return false
+			}
+			open = true
+		case '>':
+			if !open {
+				return false
+			}
+			open = false
+		case '"':
+			dq++
+		case '\'':
+			sq++
+		}
+	}
+	return !open && dq%2 == 0 && sq%2 == 0
 }
